@@ -97,6 +97,8 @@ func loadMutants(prop string) ([]Mutant, error) {
 //	--- new
 //	<fragment>
 //	--- more <file>      (optional, followed by another old/new pair)
+//
+// An old fragment whose first line is "@@all" replaces every occurrence of the rest (renames).
 func parseMut(s string) ([]Mutant, error) {
 	var out []Mutant
 	var cur *Mutant
@@ -253,6 +255,16 @@ func runMutants(o *Options, ms []Mutant, par int) []mutantResult {
 						return
 					}
 					src = string(b)
+				}
+				if strings.HasPrefix(e.old, "@@all\n") {
+					// rename-style edit: every occurrence of the literal is replaced
+					lit := strings.TrimPrefix(e.old, "@@all\n")
+					if lit == "" || strings.Count(src, lit) == 0 {
+						out.Outcome = "skipped"
+						return
+					}
+					contents[abs] = strings.ReplaceAll(src, lit, e.new)
+					continue
 				}
 				if strings.Count(src, e.old) != 1 {
 					out.Outcome = "skipped"
